@@ -5,7 +5,7 @@
     A(V, N) = V g(N/V), hence  -dA/dV = rho g' - g).  If g(0) = g'(0) = 0 and g' is derivable at 0
     with derivative c = g''(0), this quotient tends to c/2 — the value the virial functions return. *)
 From Coq Require Import Reals Lra Lia.
-Open Scope R_scope.
+Local Open Scope R_scope.
 
 Section Limit.
 Variables (g g' : R -> R) (c d0 : R).
